@@ -61,6 +61,33 @@ def fp_event(key, origin):
             'known_hosts_ok': okkh, 'origin': origin, 'cls': type(key).__name__}
 
 
+def wire_fp_events(rep, thorough):
+    """host keys and certificates AS RECEIVED: corpus blobs and accepted mutants of them; the fingerprints reported for the
+    parsed key are the digests of the blob that was on the wire (what ssh-keygen -l prints for it)"""
+    from ..mutate import mutants
+    from .. import corpus
+    ev = []
+    lib = corpus.by_class()
+    for cls in sorted(lib, key=lambda c: c.__module__ + c.__qualname__):
+        if not (isinstance(cls, type) and cls.__module__.endswith('ssh.key') and cls.__name__.startswith(('SshHostKey', 'SshHostCertificateV0'))):
+            continue
+        for sd in lib[cls][:2]:
+            for data in [sd] + mutants(sd, rep.rng, 60 if thorough else 25):
+                if len(data) > 3000:
+                    continue
+                o, res, _ = call(cls.parse_exact_size, data)
+                if o != 'ok' or not hasattr(res, 'fingerprints'):
+                    continue
+                fps = call(lambda k: k.fingerprints, res)
+                if fps[0] != 'ok':
+                    continue
+                by = {getattr(k, 'name', str(k)): v for k, v in fps[1].items()}
+                ok = by.get('SHA2_256') == 'SHA256:' + base64.b64encode(hashlib.sha256(data).digest()).decode()
+                ev.append({'ev': 'wirefp', 'cls': cls.__name__, 'ok': bool(ok), 'mutated': data is not sd, 'hex': data.hex()[:400]})
+                rep.case('wirefp|' + digest(list(data)))
+    return ev
+
+
 def run(rep):
     thorough = rep.tier == 'thorough'
     rng = rep.rng
@@ -101,9 +128,11 @@ def run(rep):
         e = fp_event(k, 'generated')
         if e:
             events.append(e)
+    events += wire_fp_events(rep, thorough)
     events = [e for e in events if e]
     for e in events:
-        rep.case(digest(e.get('wire') or e.get('key_bytes')))
+        if e['ev'] != 'wirefp':
+            rep.case(digest(e.get('wire') or e.get('key_bytes')))
     rep.extra['kexinit_cases'] = sum(1 for e in events if e['ev'] == 'hassh')
     rep.extra['key_cases'] = sum(1 for e in events if e['ev'] == 'fp')
     rep.rule = ('KEXINITs: corpus, field variations and random ordered lists of known and unknown names (empty lists included); TLC '
@@ -117,7 +146,12 @@ def run(rep):
     traces = [events[i:i + 300] for i in range(0, len(events), 300)]
     for tup, ti, ei, e in judge.run(rep, 'Trace_SshWire', list(enumerate(traces)), 'hassh', max_lines=1500):
         clause = tup[1]
-        if e['ev'] == 'hassh':
+        if e['ev'] == 'wirefp' and tup[0] == 'DEV':
+            rep.deviation('%s|%s|received-blob' % (e['cls'], clause),
+                          'an accepted key blob in a non-canonical spelling: the fingerprint is that of the re-encoded key, not of the bytes received')
+        elif e['ev'] == 'wirefp':
+            rep.violation('%s|%s|%s' % (e['cls'], clause, 'received-blob'), '%s: %s (blob %s...)' % (e['cls'], clause, e['hex'][:60]), e)
+        elif e['ev'] == 'hassh':
             rep.violation('SshKeyExchangeInit|%s|hassh' % clause, 'KEXINIT: %s [%s]' % (clause, e['origin']),
                           {'wire_hex': bytes(e['wire']).hex()[:800], 'hassh': e['hassh'], 'hassh_server': e['hassh_server'],
                            'preimage_client': bytes(e['pre_client']).decode('latin-1')})
